@@ -526,7 +526,7 @@ class CodeBuilder:
                     # input. This will not work for annotated
                     # discriminators though...
                     discr = self.get_discriminator(look_in_parents=True)
-                    if discr and discr.field:
+                    if discr and discr.field is not None:
                         allowed_keys.add(discr.field)
 
                     if config.allow_deserialization_not_by_alias:
